@@ -77,6 +77,33 @@ fn block4_entries(s: &str, t: &mut Tally) {
     if let Err(l) = guarded(|| swift_mt_message::extract_base_tag(s).to_string()) { t.panic("extract_base_tag", &l, s); }
     if let Err(l) = guarded(|| swift_mt_message::parser::extract_field_content(s, "20")) { t.panic("extract_field_content", &l, s); }
     if let Err(l) = guarded(|| swift_mt_message::parser::utils::extract_block4(s)) { t.panic("extract_block4", &l, s); }
+    // the public helper functions of fields::field_utils / fields::swift_utils that take text
+    if let Err(l) = guarded(|| {
+        use swift_mt_message::fields::{field_utils as fu, swift_utils as su};
+        let _ = fu::parse_payment_method(s); let _ = fu::parse_field_tag(s); let _ = fu::is_numbered_line(s); let _ = fu::extract_field_number(s);
+        let _ = fu::parse_party_identifier(s); let _ = fu::extract_field_option(s); let _ = fu::parse_field_with_suffix(s);
+        let ls: Vec<&str> = s.split('\n').collect();
+        let _ = fu::parse_numbered_lines(&ls); let _ = fu::validate_multiline_text(&ls, 4, 35, "f"); let _ = fu::parse_name_and_address(&ls, 0, "f"); let _ = fu::parse_multiline_text(s, 4, 35);
+        for c in s.chars().take(2) { let _ = fu::parse_debit_credit_mark(c); let _ = fu::validate_field_option(s, Some(c), &['A', 'K']); }
+        let _ = su::ensure_ascii(s, "f"); let _ = su::currency_prefix(s); let _ = su::parse_exact_length(s, 3, "f"); let _ = su::parse_max_length(s, 3, "f"); let _ = su::parse_length_range(s, 1, 3, "f");
+        let _ = su::parse_alphanumeric(s, "f"); let _ = su::parse_uppercase(s, "f"); let _ = su::parse_numeric(s, "f"); let _ = su::parse_swift_digits(s, "f"); let _ = su::parse_swift_chars(s, "f");
+        let _ = su::parse_bic(s); let _ = su::parse_account(s); let _ = su::get_currency_decimals(s); let _ = su::validate_non_commodity_currency(s); let _ = su::parse_currency(s); let _ = su::parse_currency_non_commodity(s);
+        let _ = su::parse_amount(s); let _ = su::parse_amount_with_length(s, 3); let _ = su::validate_amount_decimals(1.5, s); let _ = su::parse_amount_with_currency(s, "USD"); let _ = su::parse_amount_with_currency("1,5", s);
+        let _ = su::format_swift_amount_for_currency(1.5, s); let _ = su::fit_amount_length(s.to_string(), 3);
+        let _ = su::parse_reference(s); for c in s.chars().take(1) { let _ = su::split_at_first(s, c); } let _ = su::split_at_newline(s); let _ = su::normalize_text(s); let _ = su::validate_iban(s);
+        let _ = su::parse_date_yymmdd(s); let _ = su::parse_date_yyyymmdd(s); let _ = su::parse_time_hhmm(s); let _ = su::parse_datetime_yymmddhhmm(s);
+    }) { t.panic("fields::utils", &l, s); }
+    if let Err(l) = guarded(|| {
+        use swift_mt_message::swift_error_codes as ec;
+        let _ = swift_mt_message::parser::sequence_parser::get_sequence_config(s);
+        let _ = ec::metadata::get_error_info(s); let _ = ec::metadata::get_codes_by_series(s); let _ = ec::metadata::get_codes_by_category(s); let _ = ec::regional::is_sepa_country(s); let _ = ec::charges::is_valid_charge_code(s); let _ = ec::currencies::is_commodity_currency(s);
+        let mut p = swift_mt_message::parser::MessageParser::new(s, "103");
+        let _ = p.detect_field(s); let _ = p.detect_variant_optional(s); let _ = p.peek_field_variant(s); let _ = p.remaining().len(); let _ = p.is_complete();
+        let _ = p.parse_optional_field::<swift_mt_message::fields::Field20>(s);
+        let _ = p.parse_optional_variant_field::<swift_mt_message::fields::Field50OrderingCustomerAFK>(s);
+        let mut q = swift_mt_message::parser::MessageParser::new(s, s);
+        let _ = q.parse_field::<swift_mt_message::fields::Field20>("20"); let _ = q.parse_variant_field::<swift_mt_message::fields::Field59>("59");
+    }) { t.panic("parser::misc", &l, s); }
     if let Err(l) = guarded(|| { let _ = swift_mt_message::get_field_tag_for_mt(s, s); let _ = swift_mt_message::get_field_tag_with_variant(s, Some(s)); let _ = swift_mt_message::is_numbered_field(s); let _ = swift_mt_message::map_variant_to_numbered(s); }) { t.panic("utils", &l, s); }
 }
 
